@@ -11,6 +11,7 @@ INVARIANT MinSweeps
 INVARIANT ZeroBudget
 INVARIANT Budget
 INVARIANT CbCalls
+INVARIANT StagLaw
 PROPERTY Terminates
 PROPERTY NotMissed
 CHECK_DEADLOCK FALSE
